@@ -151,3 +151,14 @@ Theorem C01_monitor_sound :
     monitor powers B B_eq_dec i tr = Some (st, tr') -> tr' = tr /\ obeys powers B B_eq_dec tr i.
 Proof. exact monitor_sound. Qed.
 Print Assumptions C01_monitor_sound.
+
+(** Source tie: the tests of verify_commit / vc_loop (size, height, block id, absent, address,
+    signature, tally, got <= needed), of the processor model (block height vs. state height, synced)
+    and of the lock automaton (the release test of addVote / doPrevote, enterNewRound's and
+    enterPrecommit's entry guards) ARE the expressions of types/validator_set.go,
+    blockchain/processor.go and consensus/state.go, on the operands named there (Generated/C01Source.v
+    is regenerated from /repo by /verif/go2coq on every check; statement spelled out in SourceTie.v). *)
+From Kardia Require Import C01.SourceTie.
+Theorem C01_source_tie : C01_source_tie_statement.
+Proof. exact C01_source_tie_proof. Qed.
+Print Assumptions C01_source_tie.
